@@ -176,8 +176,8 @@ func shrinkS(ops []SOp) []SOp {
 }
 
 // ---------------------------------------------------------------- M oracle
-func oracleM(real bool, ops []MOp) (string, int) {
-	w := newMWorld(real)
+func oracleM(typ int, ops []MOp) (string, int) {
+	w := newMWorld(typ)
 	for i := range ops {
 		o := &ops[i]
 		if !validM(w, o) {
@@ -296,8 +296,8 @@ func validM(w *mworld, o *MOp) bool {
 	}
 	return false
 }
-func shrinkM(real bool, ops []MOp) []MOp {
-	msg, at := oracleM(real, ops)
+func shrinkM(typ int, ops []MOp) []MOp {
+	msg, at := oracleM(typ, ops)
 	if msg == "" {
 		return ops
 	}
@@ -306,7 +306,7 @@ func shrinkM(real bool, ops []MOp) []MOp {
 		changed = false
 		for i := len(ops) - 2; i >= 0; i-- {
 			cand := append(append([]MOp{}, ops[:i]...), ops[i+1:]...)
-			if m, a := oracleM(real, cand); m != "" {
+			if m, a := oracleM(typ, cand); m != "" {
 				ops = cand[:a+1]
 				changed = true
 				break
@@ -427,7 +427,24 @@ func runSeqStream(o Opts, r *Rng, extra int) {
 	w := NewCaseWriter(o.Out, "hcases", hdrH, "hmism", 40)
 	w.Type = "hcase"
 	w.Rule = "H: 2-4 calls of one entry point sharing a caller-owned InSitu struct, fresh inputs per call; non-trivial iff at least two calls completed and the struct reached storage after the first"
-	cases := entry.GenerateSeqs(r, extra)
+	// the committed corpus (past failures / seeded regressions) runs first
+	var cases []entry.SeqCase
+	ncorpus := 0
+	if b, err := os.ReadFile(filepath.Join("corpus", "C12", "seq_corpus.json")); err == nil {
+		var cs []struct {
+			Spec json.RawMessage `json:"spec"`
+		}
+		if json.Unmarshal(b, &cs) == nil {
+			for _, x := range cs {
+				if c, err := entry.ReplaySeqAny(x.Spec); err == nil {
+					cases = append(cases, c)
+					ncorpus++
+				}
+			}
+		}
+	}
+	w.Extra["corpus_sequences_run"] = ncorpus
+	cases = append(cases, entry.GenerateSeqs(r, extra)...)
 	cases = append(cases, entry.GenerateStatSeqs(r.Split(), extra/2)...)
 	w.Extra["sequence_entry_points"] = entry.SeqEntryNames()
 	w.Extra["statistics_sequences"] = entry.StatSeqNames()
@@ -506,10 +523,10 @@ func hunt(o Opts) int {
 			add(Finding{"S", "dense vector / scalar", m2, map[string]interface{}{"stream": "S", "ops": sh}, at})
 		}
 		mc, _, _ := genMHistory(rng.Split(), 24)
-		if msg, _ := oracleM(mc.Real, mc.Ops); msg != "" {
-			sh := shrinkM(mc.Real, mc.Ops)
-			m2, at := oracleM(mc.Real, sh)
-			add(Finding{"M", "dense matrix", m2, map[string]interface{}{"stream": "M", "real": mc.Real, "ops": sh}, at})
+		if msg, _ := oracleM(mc.Typ, mc.Ops); msg != "" {
+			sh := shrinkM(mc.Typ, mc.Ops)
+			m2, at := oracleM(mc.Typ, sh)
+			add(Finding{"M", "dense matrix (" + mtypes[mc.Typ].name + ")", m2, map[string]interface{}{"stream": "M", "typ": mc.Typ, "real": mc.Real, "ops": sh}, at})
 		}
 		vc, _, _ := genVHistory(rng.Split(), 24)
 		if msg, at := oracleV(vc.Type, vc.Ops); msg != "" {
@@ -583,16 +600,24 @@ func replayCase(stream string, raw json.RawMessage, out string) *Finding {
 		w.Flush()
 	case "M":
 		var c struct {
+			Typ  *int  `json:"typ"`
 			Real bool  `json:"real"`
 			Ops  []MOp `json:"ops"`
 		}
 		json.Unmarshal(raw, &c)
-		if msg, _ := oracleM(c.Real, c.Ops); msg != "" {
-			sh := shrinkM(c.Real, c.Ops)
-			m2, a2 := oracleM(c.Real, sh)
-			return &Finding{"M", "dense matrix", m2, map[string]interface{}{"stream": "M", "real": c.Real, "ops": sh}, a2}
+		typ := 0
+		if c.Typ != nil && *c.Typ >= 0 && *c.Typ < len(mtypes) {
+			typ = *c.Typ
+		} else if c.Real {
+			typ = 1
 		}
-		obs := replayM(c.Real, c.Ops)
+		c.Real = mtypes[typ].real
+		if msg, _ := oracleM(typ, c.Ops); msg != "" {
+			sh := shrinkM(typ, c.Ops)
+			m2, a2 := oracleM(typ, sh)
+			return &Finding{"M", "dense matrix (" + mtypes[typ].name + ")", m2, map[string]interface{}{"stream": "M", "typ": typ, "real": c.Real, "ops": sh}, a2}
+		}
+		obs := replayM(typ, c.Ops)
 		w := NewCaseWriter(out, "replay_m", hdrZ, "mmism", 10)
 		w.Type = "mcase"
 		w.Add(MCase{Real: c.Real, Ops: c.Ops, Obs: obs}.Coq(), nil, "replay", true)
